@@ -80,7 +80,7 @@ def r04_1(prog: Program, rep: Report):
             if T.refname(c[1]) == "datetime.datetime" and dict(c[3]).get("year") is not None:
                 lift = c
     if lift is None:
-        rep.violated("R04.1", f.qualname, f.loc, "date -> datetime lift not found in unixtime", detail="date-lift")
+        rep.undecided("R04.1", f.qualname, f.loc, "date -> datetime lift not found in unixtime", detail="date-lift")
     else:
         rep.check(_is_utc(dict(lift[3]).get("tzinfo")), "R04.1", f.qualname, f.loc, "a date is lifted to midnight UTC before .timestamp()", "date lifted to a naive/local datetime: the timestamp depends on the host zone", detail="date-lift")
 
